@@ -1,12 +1,140 @@
 /-
 C13 — property theorems. Model: `HydroVerif/Model/C13.lean`.
 -/
-import HydroVerif.Model.C13
+import HydroVerif.Lemmas.C13
 
 namespace HydroVerif.C13
+
+/-! ## 1. type tables -/
 
 /-- the dtype string written by `to_dict` is read back by `from_dict` as the same type, for the 11 supported types -/
 theorem dtypeOfStr_dtypeStr : ∀ t ∈ allDTypes, dtypeOfStr (dtypeStr t) = some (.little, t) := by
   decide
+
+/-- `allDTypes` is exactly the set of supported types -/
+theorem supported_iff_mem (t : DType) : t.supported = true ↔ t ∈ allDTypes := by
+  obtain ⟨k, b⟩ := t
+  cases k <;> simp [DType.supported, allDTypes] <;> omega
+
+/-! ## 2. bytes -/
+
+/-- a word written in a byte order and read in the same byte order is unchanged -/
+theorem decode_encode (bo : ByteOrder) (n w : Nat) (h : w < 256 ^ n) : decode bo (encode bo n w) = w := by
+  cases bo <;> simp [decode, encode, decodeLE_encodeLE n w h]
+
+/-- reading big-endian bytes as little-endian returns the word only when its byte string is a palindrome:
+the byte order of the header must be honoured -/
+theorem decode_little_encode_big_iff (n w : Nat) (h : w < 256 ^ n) :
+    decode .little (encode .big n w) = w ↔ (encodeLE n w).reverse = encodeLE n w := by
+  simp only [decode, encode]
+  constructor
+  · intro hd
+    apply decodeLE_injective (by simp)
+    rw [hd, decodeLE_encodeLE n w h]
+  · intro hp
+    rw [hp, decodeLE_encodeLE n w h]
+
+/-- `np.fromfile` with byte order `bo` recovers the words of a file that stores them in byte order `bo` -/
+theorem fromfile_encode (bo : ByteOrder) (t : DType) (ht : 0 < t.bytes) (ws : List Nat)
+    (hw : ∀ w ∈ ws, w < wordBound t) :
+    fromfile bo t (ws.flatMap (encode bo t.bytes)) = ws := by
+  unfold fromfile
+  rw [List.flatMap_def, chunks_flatten t.bytes ht]
+  · rw [List.map_map]
+    calc ws.map (decode bo ∘ encode bo t.bytes) = ws.map id := by
+          apply List.map_congr_left
+          intro w hwm
+          exact decode_encode bo t.bytes w (hw w hwm)
+      _ = ws := List.map_id _
+  · intro b hb
+    obtain ⟨w, _, rfl⟩ := List.mem_map.mp hb
+    cases bo <;> simp [encode, encodeLE_length]
+
+/-! ## 3. the data path is the identity -/
+
+/-- `_clipdata` followed by `astype` leaves every value inside `[mindata, maxdata]` bit-identical; an
+infinite bound (`none`) constrains nothing -/
+theorem clipWord_id (t : DType) (lo hi : Option Int) (w : Nat) (hw : w < wordBound t)
+    (hlo : ∀ l, lo = some l → l ≤ toInt t w) (hhi : ∀ h, hi = some h → toInt t w ≤ h) :
+    clipWord t lo hi w = w := by
+  unfold clipWord
+  cases hk : t.kind <;> simp only
+  all_goals
+    cases lo with
+    | none =>
+      cases hi with
+      | none => simp
+      | some h =>
+        have := hhi h rfl
+        simp only [Option.isNone_none, Option.isNone_some, Bool.and_false, Bool.false_eq_true, if_false]
+        rw [if_neg (by omega)]
+        exact ofInt_toInt t w hw
+    | some l =>
+      have h1 := hlo l rfl
+      simp only [Option.isNone_some, Bool.false_and, Bool.false_eq_true, if_false]
+      rw [if_neg (by omega)]
+      cases hi with
+      | none => exact ofInt_toInt t w hw
+      | some h =>
+        have := hhi h rfl
+        simp only
+        rw [if_neg (by omega)]
+        exact ofInt_toInt t w hw
+
+/-- with the default bounds the whole array goes through unchanged, whatever the values (NaN, inf, 2^63-1 …) -/
+theorem clipData_default (t : DType) (rows : List (List Nat)) : clipData t none none rows = rows := by
+  unfold clipData
+  have hw : ∀ w, clipWord t none none w = w := by
+    intro w; unfold clipWord; cases t.kind <;> simp
+  have hr : ∀ r : List Nat, r.map (clipWord t none none) = r := by
+    intro r
+    calc r.map (clipWord t none none) = r.map id := List.map_congr_left (fun w _ => hw w)
+      _ = r := List.map_id _
+  calc rows.map (fun r => r.map (clipWord t none none)) = rows.map id := List.map_congr_left (fun r _ => hr r)
+    _ = rows := List.map_id _
+
+/-- the data setter keeps an array of the right shape bit-identical (default bounds) -/
+theorem setData_id {ν : Type} (g : Grid ν) (rows : List (List Nat)) (hb : g.lo = none ∧ g.hi = none)
+    (hr : (rows.length : Int) = g.nrows) (hc : ∀ r ∈ rows, (r.length : Int) = g.ncols) :
+    setData g rows = .ok { g with data := rows } := by
+  unfold setData
+  rw [if_neg (by simpa [hr] using hc)]
+  rw [hb.1, hb.2, clipData_default]
+
+/-- **load**: a file that stores `rows` row by row in byte order `bo` is loaded, with that byte order, to exactly
+`rows` — for every dtype with a positive item size, every shape and every word (full range, NaN, inf) -/
+theorem load_file {ν : Type} (g : Grid ν) (bo : ByteOrder) (rows : List (List Nat))
+    (ht : 0 < g.dtype.bytes) (hb : g.lo = none ∧ g.hi = none)
+    (h0 : 0 ≤ g.ncols)
+    (hr : (rows.length : Int) = g.nrows) (hc : ∀ r ∈ rows, (r.length : Int) = g.ncols)
+    (hw : ∀ r ∈ rows, ∀ w ∈ r, w < wordBound g.dtype) :
+    load g bo (rows.flatten.flatMap (encode bo g.dtype.bytes)) = .ok { g with data := rows } := by
+  unfold load
+  have hc' : ∀ r ∈ rows, r.length = g.ncols.toNat := by
+    intro r hrm
+    have := hc r hrm
+    omega
+  rw [fromfile_encode bo g.dtype ht rows.flatten (by
+    intro w hwm
+    obtain ⟨r, hrm, hwr⟩ := List.mem_flatten.mp hwm
+    exact hw r hrm w hwr)]
+  have hlen : (rows.flatten.length : Int) = g.nrows * g.ncols := by
+    rw [length_flatten_uniform g.ncols.toNat rows hc', ← hr]
+    push_cast
+    rw [Int.toNat_of_nonneg h0]
+  simp only [hlen, ne_eq, not_true_eq_false, if_false]
+  have hn : g.nrows.toNat = rows.length := by omega
+  rw [hn, reshape_flatten g.ncols.toNat rows hc', hb.1, hb.2, clipData_default]
+
+/-- **save then load**: the bytes written by `tofile` are loaded back (byte order `I`) to the same words -/
+theorem load_saveData {ν : Type} (g : Grid ν) (ht : 0 < g.dtype.bytes) (hb : g.lo = none ∧ g.hi = none)
+    (h0 : 0 ≤ g.ncols) (hr : (g.data.length : Int) = g.nrows) (hc : ∀ r ∈ g.data, (r.length : Int) = g.ncols)
+    (hw : ∀ r ∈ g.data, ∀ w ∈ r, w < wordBound g.dtype) :
+    load g .little (saveData g.dtype g.data) = .ok g := by
+  have := load_file g .little g.data ht hb h0 hr hc hw
+  have he : encode ByteOrder.little g.dtype.bytes = encodeLE g.dtype.bytes := by
+    funext w; rfl
+  rw [he] at this
+  exact this
 
 end HydroVerif.C13
